@@ -319,6 +319,13 @@ theorem recv_notUndef (n : Nat) (ih : Sound cfg sfh n) (x : Ty) (b : Ty) (v : Va
     simp only [Bool.and_eq_true, Bool.not_eq_true'] at h
     exact key _ rfl h.1 h.2
 
+/-- `Iterator[x]` accepts only Iterator types, which have no instance in the value language -/
+theorem recv_iterator (x : Ty) (b : Ty) (v : Val) (h : asgRecv cfg sfh (.iterator x) b = true) (hi : inst cfg sfh b v = true) :
+    inst cfg sfh (.iterator x) v = true := by
+  unfold asgRecv at h
+  cases b <;> simp at h
+  unfold inst at hi; simp at hi
+
 theorem recv_sensitive (n : Nat) (ih : Sound cfg sfh n) (x : Ty) (b : Ty) (v : Val)
     (hw : (Ty.sensitive x).w + b.w ≤ n + 1) (H : Hyp cfg sfh (.sensitive x) b v)
     (h : asgRecv cfg sfh (.sensitive x) b = true) (hi : inst cfg sfh b v = true) :
